@@ -73,6 +73,29 @@ def is_elem_value(t, elem):
     return peel(t) == elem
 
 
+def _opt_last_is_nan(f, cnd, LIST):
+    """cnd is `LIST.last().is_some_and(|b| b.is_nan())` or `LIST.last().map_or(false, |b| b.is_nan())`."""
+    args = cnd[2]
+    recv = peel(args[0], transparent=[])
+    if not (is_call(recv, ["slice::last", "Vec::last"]) and peel(recv[2][0], transparent=["Deref::deref", "Vec::as_slice"]) == LIST):
+        return False
+    if is_call(cnd, "Option::map_or"):
+        if len(args) != 3:
+            return False
+        d = peel(args[1], transparent=[])
+        if not (isinstance(d, tuple) and d and d[0] == "const" and str(d[1]) in ("false", "const false")):
+            return False
+        clo = args[2]
+    else:
+        if len(args) != 2:
+            return False
+        clo = args[1]
+    a_ = peel(clo, transparent=[])
+    cl_ = f.closure(a_[2]) if (isinstance(a_, tuple) and a_ and a_[0] == "agg" and a_[1] == "closure") else None
+    r_ = peel(cl_.term_local(0), transparent=[]) if cl_ is not None else None
+    return bool(is_call(r_, "f64::is_nan") and peel(r_[2][0]) in (("param", 2), ("deref", ("param", 2))))
+
+
 def rule_R1_R2(ctx, f):
     b = ctx.anchor("R1", "check_and_adjust_buckets", f.body(H + "check_and_adjust_buckets"))
     if not b:
@@ -169,6 +192,9 @@ def rule_R1_R2(ctx, f):
                 continue
             cnd, tt, tf = be
             if is_call(cnd, ["f64::is_nan"]) and is_last(cnd[2][0]):
+                tail_ref.append((bi, tf))
+            elif is_call(cnd, ["Option::is_some_and", "Option::map_or"]) and _opt_last_is_nan(f, cnd, LIST):
+                # buckets.last().is_some_and(|b| b.is_nan()) / .map_or(false, |b| b.is_nan()): false only when there is no last bound or it is not NaN
                 tail_ref.append((bi, tf))
             elif is_call(cnd, ["f64::is_finite", "f64::is_normal"]) and is_last(cnd[2][0]):
                 tail_ref.append((bi, tt))
